@@ -44,9 +44,9 @@ def gen_cases(tier, seed):
     for k in range(hostile.zoo_size() * (1 if tier == "quick" else 6)):
         # the operator zoo: one CPU-resident float32 instance of 47 further operators with every option set
         cases.append({"family": "hostile", "nseed": int(seed * 1000003 + 800000 + k), "cfg": cfggen.rand_cfg(rng), "hkind": "zoo", "hpick": k, "cli": k % 4 == 0})
-    for k in range(36 if tier == "quick" else 600):
+    for k in range(48 if tier == "quick" else 800):
         # appended later: rank-changing memory-only operators inside accelerated flows, EXP / SQUARED_DIFFERENCE lowerings
-        cases.append({"family": ["shape-ops", "approx-tail2", "grouped-conv"][k % 3], "nseed": int(seed * 1000003 + 900000 + k), "cfg": cfggen.rand_cfg(rng), "cli": k % 6 == 0})
+        cases.append({"family": ["shape-ops", "approx-tail2", "grouped-conv", "lstm"][k % 4], "nseed": int(seed * 1000003 + 900000 + k), "cfg": cfggen.rand_cfg(rng), "cli": k % 6 == 0})
     for k in range(24 if tier == "quick" else 400):
         # appended later: the output of a compilation is compiled again
         cases.append({"family": ["tiny", "exact-chain", "cpu-mix", "shape-ops", "approx-tail", "lut-stress"][k % 6], "nseed": int(seed * 1000003 + 950000 + k), "cfg": cfggen.rand_cfg(rng), "cli": False, "recompile": True})
